@@ -44,12 +44,28 @@ PROGRAMS = [
     ("def test(w: Parameter[List[int]], a: Qint[2]) -> Qint[4]:\n    return max(w) + a", dict(w=[[1, 3], [2, 0], [0, 1, 2]])),
     ("def test(w: Parameter[List[int]], a: Qint[2]) -> Qint[4]:\n    return w[a]", dict(w=[[1, 2, 3, 4], [7, 0, 7, 0], [15, 0, 0, 1]])),
     ("def test(lo: Parameter[Qint[2]], hi: Parameter[Qint[2]], a: Qint[2]) -> bool:\n    return lo <= a and a <= hi", dict(lo=[0, 1, 2], hi=[1, 2, 3])),
+    # a parameter re-assigned by the body (also from its own value; the falsy values of the domain included)
+    ("def test(c: Parameter[Qint[2]], a: Qint[2]) -> Qint[2]:\n    c = c + a\n    return c", dict(c=[0, 1, 2, 3])),
+    ("def test(c: Parameter[Qint[4]], a: Qint[2], b: bool) -> Qint[4]:\n    if b:\n        c = c + a\n    c = c + 1\n    return c", dict(c=[0, 1, 7, 15])),
+    ("def test(p: Parameter[bool], a: bool, b: bool) -> bool:\n    p = p ^ a\n    p = p and b\n    return p", dict(p=[False, True])),
+    ("def test(k: Parameter[int], a: Qint[2]) -> Qint[4]:\n    k = k + a\n    k = k + k\n    return k", dict(k=[0, 1, 2, 3])),
+    ("def test(c: Parameter[Qint[2]], a: Qint[2]) -> Qint[2]:\n    for i in range(2):\n        c = c + a\n    return c", dict(c=[0, 1, 3])),
     # parameterised functions that call other compiled functions (defs=): every bind re-binds the callee
     ("def test(c: Parameter[bool], a: Qint[2]) -> Qint[2]:\n    return g(a) if c else a", dict(c=[True, False]),
      ["def g(a: Qint[2]) -> Qint[2]:\n    return a + 1"]),
     ("def test(k: Parameter[Qint[2]], a: Qint[2], b: bool) -> Qint[2]:\n    return g(a) + k if h(b, b) else g(g(a))", dict(k=[0, 1, 3]),
      ["def g(a: Qint[2]) -> Qint[2]:\n    return a ^ 1", "def h(x: bool, y: bool) -> bool:\n    return x and not y"]),
 ]
+
+
+# comparisons whose two sides are constants once the parameter is bound (folded before translation):
+# every operator, with values below, at and above the boundary
+for _op in ("<", "<=", ">", ">=", "==", "!="):
+    PROGRAMS.append((f"def test(w: Parameter[List[int]], a: Qint[2]) -> Qint[4]:\n    s = Qint4(0)\n    for k in w:\n        if k {_op} 2:\n            s = s + a\n        else:\n            s = s + 1\n    return s",
+                     dict(w=[[1, 2, 3], [2], [0, 3], [2, 2, 1]])))
+    PROGRAMS.append((f"def test(k: Parameter[int], a: Qint[2], b: Qint[2]) -> Qint[2]:\n    return a if k {_op} 2 else b", dict(k=[1, 2, 3])))
+    PROGRAMS.append((f"def test(k: Parameter[int], t: Parameter[int], a: Qint[2], b: Qint[2]) -> Qint[2]:\n    return a + 1 if 2 {_op} k else (b if k {_op} t else a)",
+                     dict(k=[1, 2, 3], t=[1, 2, 3])))
 
 
 def random_param_program(rng):
@@ -101,11 +117,20 @@ def task(job):
         dump0 = ast.dump(u.fun_ast)
         params0 = dict((k, ast.dump(v)) for k, v in u.parameters.items())
         first_exprs = {}
+        held = {}
         for bi, kw in enumerate(bindings):
             kw = dict(kw)  # keyword order = order of the pairs
             key = repr(sorted(kw.items(), key=lambda kv: kv[0]))
+            # list values are (two times out of three) passed through ONE list object per parameter that
+            # is mutated in place between the binds: bind() must read the contents it is given now
+            passed = dict(kw)
+            for pk, pv in kw.items():
+                if isinstance(pv, list) and bi % 3 != 0:
+                    obj = held.setdefault(pk, [])
+                    obj[:] = [list(x) if isinstance(x, list) else x for x in pv]
+                    passed[pk] = obj
             try:
-                qf = u.bind(**dict(kw))
+                qf = u.bind(**passed)
             except progs._Timeout:
                 raise
             except BaseException as e:
